@@ -74,7 +74,7 @@ func init() {
 func init() {
 	propMeta["C04"] = Meta{
 		Level: "fault_enumeration",
-		Rule: "The fault space is the finite set of cells (protocol scenario in {session setup, Gennaro, Canetti, Lindell22/BIP-340, DKLs23 x2, agree-on-random, redistribution with/without anchor and to a disjoint set of newcomers, Lindell17 signing x2, Lindell17 DKG (3-party variant thorough only), Boldyreva x2}, corrupt party position, message type, recipient for unicasts, leaf of the CBOR encoding at normalised path (first and last instance of repeated positions), operator in {bit flip low/high, replace by the value at the same position of another sender's / the parallel session's message, swap two leaves (two instances of a repeated position, or two sibling fields of the same kind), increment, truncate, extend, drop, replay of another sender's / the parallel session's / another recipient's whole message, replay of the message the corrupt party itself would have sent with other coins, with one single draw changed, or for another input}). Cells are derived from the recorded messages of an honest inventory run with the same seed; each evaluation re-runs the scenario (real runners, real echo broadcast, a parallel untouched session) with exactly one cell applied on the corrupt party's outgoing link, a broadcast being altered identically in all copies. The quick tier visits every cell of the cheap scenarios (agree-on-random, redistribution x3, Lindell17 signing, Boldyreva) and an evenly spread subset of the others, the thorough tier every cell (scenarios whose single run costs tens of seconds use a reduced operator set). Non-trivial = the tamper changed the bytes on the wire. Distinct = distinct cell labels.",
+		Rule: "The fault space is the finite set of cells (protocol scenario in {session setup, Gennaro (threshold and a non-ideal CNF structure), Canetti, Lindell22/BIP-340, DKLs23 x2, agree-on-random, redistribution with/without anchor and to a disjoint set of newcomers, Lindell17 signing x2, Lindell17 DKG (3-party variant thorough only), Boldyreva x2}, corrupt party position, message type, recipient for unicasts, leaf of the CBOR encoding at normalised path (first and last instance of repeated positions), operator in {bit flip low/high, replace by the value at the same position of another sender's / the parallel session's message, swap two leaves (two instances of a repeated position, or two sibling fields of the same kind), increment, truncate, extend, drop, replay of another sender's / the parallel session's / another recipient's whole message, replay of the message the corrupt party itself would have sent with other coins, with one single draw changed, or for another input}). Cells are derived from the recorded messages of an honest inventory run with the same seed; each evaluation re-runs the scenario (real runners, real echo broadcast, a parallel untouched session) with exactly one cell applied on the corrupt party's outgoing link, a broadcast being altered identically in all copies. The quick tier visits every cell of the cheap scenarios (agree-on-random, redistribution x3, Lindell17 signing, Boldyreva) and an evenly spread subset of the others, the thorough tier every cell (scenarios whose single run costs tens of seconds use a reduced operator set). Non-trivial = the tamper changed the bytes on the wire. Distinct = distinct cell labels.",
 		Assumptions: []string{
 			"binding table: every leaf is treated as bound unless listed as free with a written justification (session round-1 commitment key); operators that only append surplus data are accepted when every party ends with exactly the outputs of the unaltered run (decoding strictness is C12's subject)",
 			"the corrupt party runs honest code; its deviation is applied on the wire, so the deviating party's own later state is consistent with the untampered message",
@@ -115,7 +115,7 @@ func init() {
 func init() {
 	propMeta["C07"] = Meta{
 		Level: "exploration",
-		Rule: "Each evaluation is one paired replay: a protocol scenario (session setup, Gennaro, Canetti, Lindell22/BIP-340 signing, DKLs23 with either multiplier, agree-on-random, redistribution, Lindell17 signing; real runners, FIFO schedule, parallel second session) is executed twice or more from the same seed with exactly one controlled difference on the randomness seam of one party position: (sensitivity) another protocol-stage stream for that party, the session stage unchanged; (hidden-source) the same party streams and another process-global crypto/rand; (short-read) the same bytes handed out in reads of 1-5 bytes; (reader-failure) the k-th Read call fails, k spread over the calls of the base run; (cross-session) the two sessions of one run compared. The Lindell17 trusted dealer is paired the same way on the dealt shards (ECDSA shares and Paillier moduli). Non-trivial: every pair. Distinct = scenario x sub-check x party position.",
+		Rule: "Each evaluation is one paired replay: a protocol scenario (session setup, Gennaro, Canetti, Lindell22/BIP-340 signing, DKLs23 with either multiplier, agree-on-random, redistribution, Lindell17 signing; real runners, FIFO schedule, parallel second session) is executed twice or more from the same seed with exactly one controlled difference on the randomness seam of one party position: (sensitivity) another protocol-stage stream for that party, the session stage unchanged; (hidden-source) the same party streams and another process-global crypto/rand; (short-read) the same bytes handed out in reads of 1-5 bytes; (reader-failure) the k-th Read call fails, k spread over the calls of the base run; (cross-session) the two sessions of one run compared; (cross-recipient) the unicasts of one round to different recipients compared. The Lindell17 trusted dealer is paired the same way on the dealt shards (ECDSA shares and Paillier moduli). Non-trivial: every pair. Distinct = scenario x sub-check x party position.",
 		Assumptions: []string{"a byte-string leaf of at least 16 bytes in a message of the varied party must change when that party's stream changes, unless it is listed as derived with a justification (session id echoed by Canetti, identity entry of a zero-sharing vector, DKLs23 public-key share)", "secrets that never influence a message or output (e.g. an unused mask) are invisible to this check"},
 		Real: []string{"pkg/mpc/session, dkg/gennaro, dkg/canetti, signatures/schnorr/lindell22, signatures/ecdsa/dkls23 (bbot, softspoken), pkg/ot, pkg/mpc/rvole, commitments, proofs", "signatures/ecdsa/lindell17/keygen/trusted_dealer, pkg/encryption/paillier key generation, pkg/base/nt prime generation"},
 		Stub: append(append([]string{}, commonStub...), "process-global crypto/rand (testing/cryptotest.SetGlobalRandom)"),
